@@ -137,7 +137,7 @@ def run(prop_id, tier, seed, replay=None):
     if mach:
         # inputs are partly built with the library itself (hashes of cells used as stored hashes): when the library is broken
         # such inputs can disagree with their labels.  Records that fail on their own merits are reported; the others are set aside.
-        log(f'[{prop_id}] {len(mach)} records set aside (input construction disagrees with its label): {mach[:3]}')
+        log(f'[{prop_id}] {len(mach)} records set aside (their clauses could not be decided: input built with the library contradicts its label, or TLC cannot evaluate them): {mach[:3]}')
         for i, _ in mach:
             bad.pop(i)
     known = vlib.load_known(prop_id)
